@@ -73,6 +73,8 @@ def request_jobs(tier):
         for first, fn in (((0, "floats-first"),) if tier == "quick" else ((0, "floats-first"), (1, "ints-first"))):
             js.append({"id": f"O7.request.{an}.two-targets.{fn}", "func": "VerifH_C08_MinMax", "conf": {"agg": agg, "first": first},
                        "_obligation": "O7", "_covers": ["ran"], "unwind": 60})
+    for idx in (0, 2):
+        js.append({"id": f"O8.request.group-by.idx{idx}", "func": "VerifH_C08_Group", "conf": {"idx": idx}, "_obligation": "O8", "_covers": ["ran"], "unwind": 60})
     return js
 
 
@@ -86,6 +88,6 @@ PROPERTY = {
     "assumptions": ["values of one field share one kind (schema typing)", "no NaN (cannot enter through JSON/GraphQL)",
                     "limit/offset < 2^31 (non-negative GraphQL Int)",
                     "mixed int/float comparisons are specified as carried out in float64, mixed equality as exact"],
-    "outside_claim": ["average, grouping; min / max beyond two inline-array targets (floats from four constants, integers int8); integer sums beyond the window explored for known finding C08-sum-int-above-2p53 (one value in [2^53, 2^53+255])", "average (fp.add chains time out in all solvers), group, _like family, array/JSON operators",
+    "outside_claim": ["average; grouping by more than one field or with filters / limits inside the group; min / max beyond two inline-array targets (floats from four constants, integers int8); integer sums beyond the window explored for known finding C08-sum-int-above-2p53 (one value in [2^53, 2^53+255])", "average (fp.add chains time out in all solvers), _like family, array/JSON operators",
                       "GraphQL parser, mapper and ExecRequest as a whole (the no-request-panics clause)", "commits plan node"],
 }
